@@ -70,6 +70,7 @@ struct World {
     cocls::future<int> fut;
     cocls::promise<int> *p = nullptr;   // heap object: alive until its destructor has returned
     const void *p_owner_addr = nullptr;
+    bool fine = false;      // finest grain (FutureFine.tla): yield before AND after every atomic operation
     std::map<std::string, const void *> q_owner_addr;   // masg: the assigned-to promise of each such thread
     std::map<std::string, std::string> rkind, wkind;
     std::map<std::string, int> tid;          // thread name -> vsched id
@@ -131,12 +132,22 @@ static cocls::async<int> final_coro(int who) {
     co_return who;
 }
 
+static std::string pend_site(World &w, const std::string &name, bool resolver);
+
 static std::string pend_of(World &w, const std::string &name, bool resolver) {
     int t = w.tid[name];
     if (w.sched.done(t)) {
-        if (resolver) return "done";
+        if (resolver || w.fine) return "done";
         return w.recs[name].done ? "done" : "parked";
     }
+    std::string site = pend_site(w, name, resolver);
+    if (!w.fine) return site;
+    return std::string(w.sched.pending_after(t) ? "post:" : "pre:") + site;
+}
+
+static std::string pend_site(World &w, const std::string &name, bool resolver) {
+    (void) resolver;
+    int t = w.tid[name];
     const auto &e = w.sched.pending(t);
     // classification by operation kind and by WHICH atomic object is touched (robust against renamed or
     // restructured functions): the future's awaiter slot, the promise's owner pointer, anything else
@@ -177,7 +188,7 @@ static J project(World &w) {
     // learn node addresses from pending CAS operations
     for (auto &kv : w.wkind) {
         int t = w.tid[kv.first];
-        if (w.sched.parked(t) && w.sched.pending(t).op == op_t::cas) w.node_of[w.sched.pending(t).arg] = kv.first;
+        if (w.sched.parked(t) && !w.sched.pending_after(t) && w.sched.pending(t).op == op_t::cas) w.node_of[w.sched.pending(t).arg] = kv.first;
     }
     // chain
     cocls::awaiter *top = (w.fut.*FProbe::slot_mp()).verif_peek();
@@ -281,6 +292,7 @@ static void absorb_extra_loads(World &w, const std::string &expected) {
             if (e.op != op_t::load && e.op != op_t::conv) break;
             if (pend_of(w, kv.first, w.rkind.count(kv.first) != 0) == kv.second.as_str()) break;
             w.sched.step(t);
+            if (w.fine && w.sched.parked(t) && w.sched.pending_after(t)) w.sched.step(t);   // the local code after it
         }
     }
 }
@@ -289,6 +301,8 @@ static void run_one(const Scenario &sc, Reporter &rep, Explore *ex) {
     World w;
     for (auto &kv : sc.hdr.at("R").m) { w.rkind[kv.first] = kv.second.s; w.rres[kv.first] = "none"; }
     for (auto &kv : sc.hdr.at("W").m) { w.wkind[kv.first] = kv.second.s; w.recs[kv.first]; }
+    w.fine = sc.hdr.at("fine").as_bool(false);
+    w.sched.yield_after = w.fine;
     w.p = new cocls::promise<int>(w.fut.get_promise());
     w.p_owner_addr = &((*w.p).*PProbe::owner_mp());
     if (w.sched.record_motable) {
@@ -424,7 +438,10 @@ static void run_one(const Scenario &sc, Reporter &rep, Explore *ex) {
         }
         // the acting thread may be parked at an unexpected pure load (see absorb_extra_loads): run it first
         if (st.name != "CheckReady" && st.name != "DLoad")
-            for (int i = 0; i < 2 && w.sched.parked(t) && (w.sched.pending(t).op == op_t::load || w.sched.pending(t).op == op_t::conv); i++) w.sched.step(t);
+            for (int i = 0; i < 2 && w.sched.parked(t) && !w.sched.pending_after(t) && (w.sched.pending(t).op == op_t::load || w.sched.pending(t).op == op_t::conv); i++) {
+                w.sched.step(t);
+                if (w.fine && w.sched.parked(t) && w.sched.pending_after(t)) w.sched.step(t);
+            }
         (void) project(w);      // (learn the awaiter node address if the thread now waits at its CAS)
         if (!w.sched.enabled(t)) { rep.diverge(k, "thread not enabled after an absorbed load got=" + project(w).dump()); bad = true; break; }
         w.sched.step(t);
